@@ -376,9 +376,30 @@ def readAll (sizeAll bytes fileLen : Nat) : List Nat → Except Unit Unit
     | .error e => .error e
     | .ok _ => readAll sizeAll bytes fileLen r
 
-/-- reading an Interfile dynamic / parametric image whose header announces the data sets at `offsets` -/
-def readDatasets (nm : Bool) (offsets : List Nat) (sizeAll bytes fileLen : Nat) : Except Unit Unit :=
-  readAll sizeAll bytes fileLen (parsedOffsets nm offsets)
+/-- `read_interfile_dynamic_image` (interfile.cxx:200-214, since repo commit 0e66b8adc): a frame after the first one
+    whose parsed offset is 0 (the default: no `data offset in bytes[frame]` was given, or the key was not recognised)
+    follows the previous frame in the file, `offset = previous_offset + frame_size_in_bytes`; `prev` is the offset used
+    for the previous frame. -/
+def followAux (frameBytes prev : Nat) : List Nat → List Nat
+  | [] => []
+  | o :: r =>
+    let o' := if o = 0 then prev + frameBytes else o
+    o' :: followAux frameBytes o' r
+
+/-- the offsets `read_interfile_dynamic_image` seeks to, from the parsed ones (the first frame's is used as parsed) -/
+def dynamicOffsets (frameBytes : Nat) : List Nat → List Nat
+  | [] => []
+  | o :: r => o :: followAux frameBytes o r
+
+/-- the offsets the reading loop seeks to: `read_interfile_dynamic_image` (`dyn = true`) lets frames follow each
+    other; `read_interfile_parametric_image` (interfile.cxx:268-272) uses the parsed offsets as they are. -/
+def usedOffsets (dyn nm : Bool) (offsets : List Nat) (sizeAll bytes : Nat) : List Nat :=
+  if dyn then dynamicOffsets (sizeAll * bytes) (parsedOffsets nm offsets) else parsedOffsets nm offsets
+
+/-- reading an Interfile dynamic (`dyn = true`) / parametric (`dyn = false`) image whose header announces the data
+    sets at `offsets` -/
+def readDatasets (dyn nm : Bool) (offsets : List Nat) (sizeAll bytes fileLen : Nat) : Except Unit Unit :=
+  readAll sizeAll bytes fileLen (usedOffsets dyn nm offsets sizeAll bytes)
 
 /-- reading a Multi image (`Multi…InputFileFormat::read_from_file`): every member is a single image in a data file of
     its own (length `lens[i]`), read from offset 0; `read_from_file` of a member that cannot be read throws. -/
